@@ -729,6 +729,8 @@ structure CRPost (E : Env) (dev : Bool) (Γ : Path → List (Dir × Digest)) (i 
   inputs : r'.st.inputs i.path = some inH
   ohNotHash : ¬ isHash oh
   claim : ∀ cs, strip inH = hashes E cs → ∃ c, r'.st.disk i.path = some c ∧ Produced E dev i.sig cs c
+  /-- the script ran in this invocation, i.e. with the current external world -/
+  claimW : ∀ cs, strip inH = hashes E cs → ∃ c old, r'.st.disk i.path = some c ∧ E.sem i.sig i.world old cs = .ok c
 
 theorem vids_length (ds : List Step) : (vids ds).length = ds.length := by
   induction ds with
@@ -863,7 +865,11 @@ theorem checkoutRun_truthful (hinj : Function.Injective E.H) (cfg : Cfg) (i : In
                       claim := by
                         intro cs hcs
                         refine ⟨c, by simpa [St.setDir, St.setInputs, St.setVid] using hd5, ?_⟩
-                        exact produced cs (contents_of_hashes hinj h ds cs hcs) }
+                        exact produced cs (contents_of_hashes hinj h ds cs hcs)
+                      claimW := by
+                        intro cs hcs
+                        refine ⟨c, c0, by simpa [St.setDir, St.setInputs, St.setVid] using hd5, ?_⟩
+                        rw [contents_of_hashes hinj h ds cs hcs]; exact hsem }
       -- forge or not
       cases hres : r.st.results i.path with
       | none =>
@@ -930,12 +936,17 @@ theorem strip_resultsOf {st : St} (h : Truthful E dev Γ st) (ds : List Step) :
 
 theorem hashes_length (cs : List Content) : (hashes E cs).length = cs.length := by simp [hashes]
 
+/-- an indeterministic checkout has just been run with the current external world -/
+def RanNow (E : Env) (i : Info) (inH : Inputs) (st' : St) : Prop :=
+  i.det = false → ∀ cs, strip inH = hashes E cs →
+    ∃ c old, st'.disk i.path = some c ∧ E.sem i.sig i.world old cs = .ok c
+
 theorem cookCheckout_truthful (hinj : Function.Injective E.H) (cfg : Cfg) (i : Info) (ds : List Step)
     (hwf : CoWF Γ i ds) (hk : i.sig.kind = .checkout) (hacyc : ∀ d ∈ ds, d.path ≠ i.path)
     (r : Run) (h : Truthful E dev Γ r.st) :
     wp (cookCheckout E cfg i ds)
       (fun _ r' => Truthful E dev Γ r'.st ∧ r'.mem = r.mem ∧ AgreeOff i.path r.st r'.st ∧
-        Cooked E dev i.sig i.path (resultsOf r.st ds) r'.st)
+        Cooked E dev i.sig i.path (resultsOf r.st ds) r'.st ∧ RanNow E i (resultsOf r.st ds) r'.st)
       (fun r' => Truthful E dev Γ r'.st) r := by
   unfold cookCheckout
   simp only [wp_bind, wp_getSt]
@@ -948,7 +959,7 @@ theorem cookCheckout_truthful (hinj : Function.Injective E.H) (cfg : Cfg) (i : I
       wp (whenM (decide (some (hashOf E r3.st i.path) ≠ oh) || cfg.force)
             (prim (.setResult i.path (hashOf E r3.st i.path)) (fun s => s.setResult i.path (hashOf E r3.st i.path))))
         (fun _ r' => Truthful E dev Γ r'.st ∧ r'.mem = r.mem ∧ AgreeOff i.path r.st r'.st ∧
-          Cooked E dev i.sig i.path (resultsOf r.st ds) r'.st)
+          Cooked E dev i.sig i.path (resultsOf r.st ds) r'.st ∧ RanNow E i (resultsOf r.st ds) r'.st)
         (fun r' => Truthful E dev Γ r'.st) r3 := by
     intro oh r3 st0 mem0 hp3 hm0 ha0
     have hin0 : resultsOf st0 ds = resultsOf r.st ds := resultsOf_agree ha0 ds hacyc
@@ -965,7 +976,12 @@ theorem cookCheckout_truthful (hinj : Function.Injective E.H) (cfg : Cfg) (i : I
     · exact hp3.truthful
     · intro k l
       simp only [hashOf, hc3, Option.getD_some]
-      refine ⟨?_, hp3.mem.trans hm0, (ha0.trans hp3.agree).trans (agree_setResult _ _ _), ?_⟩
+      refine ⟨?_, hp3.mem.trans hm0, (ha0.trans hp3.agree).trans (agree_setResult _ _ _), ?_, ?_⟩
+      rotate_left 2
+      · intro _ cs hcs
+        rw [← hin0] at hcs
+        obtain ⟨c, old, hdc, hsc⟩ := hp3.claimW cs hcs
+        exact ⟨c, old, by simpa [St.setResult] using hdc, hsc⟩
       · apply truthful_co_setResult _ _ hp3.truthful hc3 ⟨_, _, _, hd3⟩
         intro scms v bo hs cs hq hi hcs _
         rw [hd3] at hq
@@ -1047,7 +1063,9 @@ theorem cookCheckout_truthful (hinj : Function.Injective E.H) (cfg : Cfg) (i : I
         · exact hp.truthful
         · intro k l
           simp only [hashOf, hc1, Option.getD_some]
-          refine ⟨?_, hp.mem, hp.agree.trans (agree_setResult _ _ _), ?_⟩
+          refine ⟨?_, hp.mem, hp.agree.trans (agree_setResult _ _ _), ?_, ?_⟩
+          rotate_left 2
+          · intro hnd; rw [hnd] at hdet; simp at hdet
           · apply truthful_co_setResult _ _ hp.truthful hc1 ⟨_, _, _, hdir⟩
             intro scms v bo' hs cs hq hi hcs hlen
             rw [hin] at hi
@@ -1061,7 +1079,9 @@ theorem cookCheckout_truthful (hinj : Function.Injective E.H) (cfg : Cfg) (i : I
             rw [← hin1] at hcs
             exact ⟨c1, by simpa [St.setResult] using hc1, by simp [St.setResult], hprod cs hcs⟩
       · intro hcond
-        refine ⟨hp.truthful, hp.mem, hp.agree, ?_⟩
+        refine ⟨hp.truthful, hp.mem, hp.agree, ?_, ?_⟩
+        rotate_left 1
+        · intro hnd; rw [hnd] at hdet; simp at hdet
         intro cs hcs
         rw [← hin1] at hcs
         have hres : r1.st.results i.path = some (.hash (E.H c1)) := by
